@@ -4,6 +4,9 @@
 package column
 
 import (
+	"io"
+	"time"
+
 	"github.com/kelindar/bitmap"
 	"github.com/kelindar/column/commit"
 )
@@ -891,4 +894,94 @@ func vLemmaKeyOperations(owner *Collection, key string, at uint32, present bool,
 		vAssert("deletekey-fails-iff-absent", (err != nil) == !present)
 	}
 	vAssert("locks-released", vNothingHeld())
+}
+
+// ---------------------------------------------------------------------------------------------
+// Expiry (C17). The cleanup step - the body of the vacuum's Range callback - queues a delete for the row under the
+// cursor if and only if the row holds a deadline that is non-zero and strictly before the clock value read at the start
+// of the cleanup transaction.
+//
+//@ contract target=column.(*Txn).DeleteAt use verify=no
+func vContractDeleteAtGhost(txn *Txn, index uint32) (deleted bool) {
+	deleted = txn.DeleteAt(index)
+	vDidDeleteAt++
+	vLastDeleteAt = index
+	return
+}
+
+//@ lemma props=C17
+func vLemmaVacuumStep(chs chunks[int64], idx uint32, nowNanos int64) {
+	vAssume(vForall(0, len(chs), func(k int) bool { return len(chs[k].fill) == chunkSize/64 && len(chs[k].data) == chunkSize }))
+	vAssume(0 <= nowNanos && nowNanos < 1<<62)
+	col := &numericColumn[int64]{chunks: chs}
+	txn := &Txn{cursor: idx}
+	ttl := rwTTL{rw: rwInt64{rdNumber: rdNumber[int64]{reader: col, txn: txn}}}
+	now := time.Unix(0, nowNanos)
+	deadline, present := col.load(idx)
+	vAssume(!present || (0 <= deadline && deadline < 1<<62)) // deadlines are clock values plus a positive ttl
+	vDidDeleteAt = 0
+	vCallAnon("column.(*Collection).vacuum$1$1", []any{&ttl, &now, &txn}, idx)
+	expired := present && deadline != 0 && deadline < nowNanos
+	vAssert("deletes-iff-expired", (vDidDeleteAt == 1) == expired && vDidDeleteAt <= 1)
+	vAssert("deletes-the-row-under-the-cursor", !expired || vLastDeleteAt == idx)
+}
+
+// The accessor side: a deadline is reported only when present and non-zero; a positive ttl is stored as now + ttl,
+// a non-positive one as 0 ("never"); Extend is a merge of the delta on the deadline (then C01's merge applies).
+//
+//@ lemma props=C17
+func vLemmaTTLAccessors(chs chunks[int64], idx uint32, ttlIn int64, buf []byte, last int32, cur commit.Chunk) {
+	vAssume(vForall(0, len(chs), func(k int) bool { return len(chs[k].fill) == chunkSize/64 && len(chs[k].data) == chunkSize }))
+	vAssume(0 <= vNow && vNow < 1<<61 && ttlIn < 1<<61 && ttlIn > -(1 << 61) && idx < 1<<31 && last >= 0)
+	col := &numericColumn[int64]{chunks: chs}
+	txn := &Txn{cursor: idx}
+	b := commit.VBuffer(buf, last, cur)
+	oldLen := len(buf)
+	ttl := rwTTL{rw: rwInt64{rdNumber: rdNumber[int64]{reader: col, txn: txn}, writer: b}}
+	deadline, present := col.load(idx)
+	vAssume(!present || (0 <= deadline && deadline < 1<<62))
+	at, ok := ttl.ExpiresAt()
+	vAssert("expiresat-ok-iff-present-nonzero", ok == (present && deadline != 0))
+	vAssert("expiresat-value", !ok || at.UnixNano() == deadline)
+	stored := writeTTL(time.Duration(ttlIn))
+	vAssert("writettl", (ttlIn > 0 && stored == vNow+ttlIn) || (ttlIn <= 0 && stored == 0))
+	ttl.Extend(time.Duration(ttlIn))
+	r := commit.VReaderAt(b, 0, oldLen, last)
+	vAssert("extend-is-a-merge-of-the-delta", r.Next() && r.Type == commit.Merge && r.Index() == idx && r.Int64() == ttlIn && commit.VAtEnd(r))
+}
+
+// ---------------------------------------------------------------------------------------------
+// Snapshot (C14): on every way out the error of the failing step is returned, the recorder pointer this call set is
+// cleared, and no descriptor or temporary file remains. A second call while a snapshot is in progress fails without
+// touching the recorder and without leaving its own temporary file behind.
+//
+//@ contract target=column.(*Collection).writeState use verify=no
+func vContractWriteStateGhost(c *Collection, dst io.Writer) (n int64, err error) {
+	n, err = c.writeState(dst)
+	vWriteErr = err
+	return
+}
+
+//@ lemma props=C14 mode=paths
+func vLemmaSnapshot(c *Collection, dst io.Writer, busy *commit.Log) {
+	vAssume(c != nil)
+	c.record = busy
+	files, temps := vOpenFiles, vTempFiles
+	vCopies = 0
+	vWriteErr, vCopyErr = nil, nil
+	err := c.Snapshot(dst)
+	vAssert("no-open-file", vOpenFiles == files)
+	vAssert("no-temp-file", vTempFiles == temps)
+	switch {
+	case vOpenTempErr != nil:
+		vAssert("open-error-returned", err == vOpenTempErr && c.record == busy)
+	case busy != nil:
+		vAssert("busy-fails-and-keeps-recorder", err != nil && c.record == busy && vCopies == 0)
+	case vWriteErr != nil:
+		vAssert("write-error-returned", err == vWriteErr && vCopies == 0)
+		vAssert("recorder-released", c.record == nil)
+	default:
+		vAssert("copy-result-returned", err == vCopyErr && vCopies == 1)
+		vAssert("recorder-released", c.record == nil)
+	}
 }
